@@ -164,4 +164,9 @@ def check(ctx: Ctx) -> str:
     from . import c09
 
     ctx.run_imported("C09", {"R3"}, c09.check)
+    # a namespace seeded from a shared dict owns a copy: concurrent renders do not add up each
+    # other's `{% set ns.x %}` (rule owned by C03)
+    from . import c03
+
+    ctx.run_imported("C03", {"R8"}, c03.check)
     return __doc__ or ""
